@@ -28,6 +28,8 @@ inline void fail(std::string const& fn, std::string const& cls, std::string cons
 inline void sample(std::string const& s) { if (g_samples++ < 8) std::printf("SAMPLE %s\n", s.c_str()); }
 inline int finish() { long tot = 0; for (auto& kv : g_cases) { std::printf("STAT fn=%s cases=%ld\n", kv.first.c_str(), kv.second); tot += kv.second; } std::printf("TOTAL cases=%ld fails=%ld\n", tot, g_total_fail); return g_total_fail ? 1 : 0; }
 template<class T> inline std::string str(T const& v) { std::ostringstream o; o.precision(17); o << v; return o.str(); }
+// max that keeps a NaN operand (std::max silently drops it, and a NaN matrix element would then pass every "difference <= tolerance" test)
+inline long double nmax(long double a, long double b) { return (a != a || b != b) ? std::numeric_limits<long double>::quiet_NaN() : (a < b ? b : a); }
 inline uint32_t f2u(float f) { uint32_t u; std::memcpy(&u, &f, 4); return u; }
 inline float u2f(uint32_t u) { float f; std::memcpy(&f, &u, 4); return f; }
 inline uint64_t d2u(double f) { uint64_t u; std::memcpy(&u, &f, 8); return u; }
